@@ -255,7 +255,7 @@ def faithful_entry(chk, doc, fed, preserve, ctx):
         got = got or {}
         yield from diff("response.status.code", str(r.status_code), (got.get("status") or {}).get("code"))
         yield from diff("response.status.message", r.message, (got.get("status") or {}).get("message"))
-        yield from diff("response.headers", dict(r.headers), got.get("headers") or {})
+        yield from diff("response.headers", fed["orig_headers"], got.get("headers") or {})
         yield from diff("response.http_version", r.http_version, got.get("http_version"))
         b = got.get("body")
         if preserve:
@@ -540,7 +540,7 @@ def har_judge(chk, mechanism, recorders, feds, preserve, variant):
     for ri, rec in enumerate(recorders):
         for cid, inter in rec.interactions.items():
             if inter.response is not None:
-                orig = feds[ri][cid]["orig_headers"]
+                orig = feds[ri][cid]["headers_in"]
                 for name in ("Content-Type", "Location"):
                     reqs.append(("har", {"headers": W.wire_headers(orig), "name": cps(name)}))
                     where.append((ri, cid, name))
@@ -585,6 +585,7 @@ def har_judge(chk, mechanism, recorders, feds, preserve, variant):
                 diff("request.postData.bytes", body, base64.b64decode(rq["postData"]["text"]))
             else:
                 diff("request.postData.text", body.decode("utf-8", "replace"), rq["postData"]["text"])
+            diff("request.bodySize", len(body) if body else 0, rq["bodySize"])
             diff("request.cookies", cookie_names([p.headers["Cookie"]] if "Cookie" in p.headers else []),
                  [c["name"] for c in rq["cookies"]], KF_HAR_COOKIES)
             r = f["response"]
@@ -594,7 +595,9 @@ def har_judge(chk, mechanism, recorders, feds, preserve, variant):
                 continue
             diff("response.status", r.status_code, rs["status"])
             diff("response.statusText", r.message, rs["statusText"])
-            diff("response.headers", [{"name": k, "value": v[0]} for k, v in r.headers.items()], rs["headers"])
+            diff("response.bodySize", len(r.content), rs["bodySize"])
+            diff("response.content.size", len(r.content), rs["content"].get("size", 0))
+            diff("response.headers", [{"name": k, "value": v[0]} for k, v in f["orig_headers"].items()], rs["headers"])
             if preserve:
                 diff("response.content.bytes", r.content, base64.b64decode(rs["content"].get("text") or ""))
             else:
@@ -605,7 +608,7 @@ def har_judge(chk, mechanism, recorders, feds, preserve, variant):
                                      ("Location", "redirectURL", rs.get("redirectURL", ""))):
                 m = res[(ri, cid, name)]
                 if from_cps(m[variant]) != got:
-                    chk.disagreement(mechanism, {"aspect": field, "headers": W.wire_headers(f["orig_headers"]), "name": name},
+                    chk.disagreement(mechanism, {"aspect": field, "headers": W.wire_headers(f["headers_in"]), "name": name},
                                      from_cps(m[variant]), got)
                 exp = lowered.get(name.lower(), [""])[0]
                 chk.feature(f"har:{field}:{'present' if name.lower() in lowered else 'absent'}")
@@ -919,9 +922,6 @@ def gen_recorders(chk, rng, n, **kw):
     recs, feds = [], []
     for _ in range(n):
         r, f = W.gen_recorder(rng, chk.feature, **kw)
-        for cid, d in f.items():
-            if d["response"] is not None:
-                d["orig_headers"] = dict(d["response"].headers)
         recs.append(r)
         feds.append(f)
     return recs, feds
@@ -939,14 +939,16 @@ def witness_recorders():
                                            phase=W.PhaseInfo.generate()) if meta else None)
         rec.record_case(parent_id=None, transition=None, case=case)
         pr = W.requests.Request("GET", url, headers=headers or {}).prepare()
-        resp = W.Response(status_code=200, headers=resp_headers or {}, content=content, request=pr, elapsed=0.1, verify=False,
+        resp = W.Response(status_code=200, headers=dict(resp_headers or {}), content=content, request=pr, elapsed=0.1, verify=False,
                           message="OK", encoding=encoding)
         rec.record_response(case_id=case.id, response=resp)
         checks = None
         if title is not None:
             rec.record_check_failure(name="c", case_id=case.id, code_sample="curl", failure=Failure(operation="GET /a", title=title, message="m"))
             checks = [("c", title)]
-        return rec, {case.id: {"prepared": pr, "response": resp, "checks": checks, "case": case, "orig_headers": dict(resp.headers)}}
+        return rec, {case.id: {"prepared": pr, "response": resp, "checks": checks, "case": case,
+                     "orig_headers": {k.lower(): list(v) for k, v in (resp_headers or {}).items()},
+                     "headers_in": {k: list(v) for k, v in (resp_headers or {}).items()}}}
 
     out.append(("meta-none", *mk(meta=False)))
     out.append(("uri-quote", *mk(url="http://127.0.0.1/it's")))
